@@ -431,12 +431,21 @@ pub fn finish(
         if !r.fixpoint && !r.cap_hit.as_deref().map(|c| c.starts_with("depth bound")).unwrap_or(false) {
             exhaustive = false;
         }
-        for (root, hist) in r.samples.iter().take(4) {
-            samples.push(json!({"phase": ph.name, "witness_history": show_history(u, &ph.roots[*root].cfg, hist, None)}));
+        for (root, hist) in r.samples.iter().take(if ph.name.starts_with("seed") { 1 } else { 4 }) {
+            let mut lines = show_history(u, &ph.roots[*root].cfg, hist, None);
+            if lines.len() > 24 {
+                let n = lines.len();
+                let mut short: Vec<String> = lines[..8].to_vec();
+                short.push(format!("... ({} more steps of the deterministic seed script) ...", n - 20));
+                short.extend(lines[n - 12..].iter().cloned());
+                lines = short;
+            }
+            samples.push(json!({"phase": ph.name, "witness_history": lines}));
         }
         phase_json.push(json!({
             "phase": ph.name,
-            "roots": ph.roots.iter().map(|r| r.label.clone()).collect::<Vec<_>>(),
+            "roots": ph.roots.iter().take(12).map(|r| r.label.clone()).collect::<Vec<_>>(),
+            "roots_total": ph.roots.len(),
             "alphabet_size": ph.alpha_len,
             "states": r.states,
             "transitions": r.transitions,
